@@ -11,8 +11,7 @@
     is done (or never), under a return policy `pol` (after each step of the model, how many of the
     finished calls are seen to return); `traceX` is the earliest placement, the strictest one for
     the monitor.
-  * a ghost `G` next to the model state: `absCfg` (the last timeout configuration call was
-    `nng_aio_set_expire`, i.e. the monitor's `absExp` is set), `abE` (how many of the
+  * a ghost `G` next to the model state: `abE` (how many of the
     `(p, NNG_ESTOPPED)` entries of `calls` were put there by `nng_aio_abort(aio, NNG_ESTOPPED)`
     rather than by `nni_aio_close`; the model does not distinguish them; the abort's entries are
     taken first) and `ret` (finished `nng_aio_abort` calls whose return has not been observed;
@@ -27,8 +26,6 @@ open Nng.AioSpec
 structure G where
   /-- entries `(p, NNG_ESTOPPED)` of `calls` that stem from `nng_aio_abort(aio, NNG_ESTOPPED)` -/
   abE : Nat := 0
-  /-- the last timeout configuration call was `nng_aio_set_expire` -/
-  absCfg : Bool := false
   /-- `nng_aio_abort` calls that have done their work and whose return has not been observed yet
       (only used by the traces with delayed returns, `traceP`; `traceX` keeps it 0) -/
   ret : Nat := 0
@@ -36,8 +33,6 @@ deriving Repr, DecidableEq, Inhabited
 
 def gStep (s : State) (g : G) (l : Label) : G :=
   match l with
-  | .setTimeout _ => { g with absCfg := false }
-  | .setExpire _ => { g with absCfg := true }
   | .abortSec rv => if s.cancelFn.isSome && rv == ESTOPPED then { g with abE := g.abE + 1 } else g
   | .callCancel _ rv => if rv == ESTOPPED && g.abE != 0 then { g with abE := g.abE - 1 } else g
   | _ => g
@@ -86,16 +81,14 @@ theorem obsX_eq (s : State) (g : G) (l : Label) :
     * the provider does not itself complete an operation with NNG_ETIMEDOUT (the monitor attributes
       every NNG_ETIMEDOUT that the user did not pass to `nng_aio_abort` to the aio's timer);
     * an operation is started only when the previous `nng_aio_start`-style call has returned (the
-      monitor attributes a return to the newest operation), and, after an operation that used
-      `nng_aio_set_expire` has finished, only after the timeout has been configured again
-      (`a_use_expire` is one-shot; the monitor keeps the absolute expiry);
+      monitor attributes a return to the newest operation);
     * `nng_aio_result` is not called during or after `nng_aio_free`;
     * when `nng_aio_free` sees the task idle every start call has returned;
     * no callback begins between `nng_aio_stop`'s last look at the task and its return. -/
-def okL (s : State) (g : G) : Label → Bool
+def okL (s : State) (_g : G) : Label → Bool
   | .complete rv => rv != ETIMEDOUT
   | .subCall k _ =>
-    s.subRets.isEmpty && (match k with | .direct rv => rv != ETIMEDOUT | _ => true) && (!g.absCfg || s.useExpire)
+    s.subRets.isEmpty && (match k with | .direct rv => rv != ETIMEDOUT | _ => true)
   | .peek => !s.freed && !(s.stopPc != 0 && s.stopFree)
   | .stopWait => !s.stopFree || s.subRets.isEmpty
   | .cbRead => s.stopPc != 5
